@@ -41,6 +41,8 @@ pub struct Directive {
     pub suspend: bool,
     /// pad every NoticeResponse message text to this many bytes
     pub notice_len: usize,
+    /// write this many reply bytes, then stop answering for ever
+    pub hang_after: Option<usize>,
 }
 
 impl Directive {
@@ -83,6 +85,7 @@ impl Directive {
                 "failparse" => d.failparse = true,
                 "suspend" => d.suspend = true,
                 "noticelen" => d.notice_len = v.parse().unwrap_or(0),
+                "hangafter" => d.hang_after = v.parse().ok(),
                 _ => {}
             }
         }
